@@ -128,7 +128,7 @@ struct ArchiveChecker {
 		std::string what;
 		// what is at the destination beforehand: nothing, a file of the same length with other content, or a file of another length
 		uint64_t pre = mix64(plan.seed, opIdx * 31 + i) % 4;
-		if (pre == 1 && !exp[i].data.empty()) { std::vector<uint8_t> decoy = exp[i].data; for (auto& b : decoy) b = static_cast<uint8_t>(~b); disk::put(path, decoy); ctx.count("probe.extract_over_same_length_file"); }
+		if (pre == 1 && !exp[i].data.empty()) { std::vector<uint8_t> decoy = digestDecoy(exp[i].data, mix64(plan.seed, opIdx * 131 + i)); disk::put(path, decoy); ctx.count("probe.extract_over_same_length_file"); }
 		else if (pre == 2) disk::put(path, prngBytes(plan.seed ^ opIdx, exp[i].data.size() + 1 + (plan.seed % 50)));
 		Out o = callLib(plan, [&] { if (byName) ar.ExtractFile(caseVariant(exp[i].name, variant), path); else ar.ExtractFile(i, path); }, &what);
 		std::string desc = std::string(byName ? "ExtractFile(name)" : "ExtractFile(index)") + " of member " + std::to_string(i) + " '" + exp[i].name + "'";
@@ -151,7 +151,7 @@ struct ArchiveChecker {
 		if (how == 1) arg = dir + "/";
 		else if (how == 2) arg = "./" + dir;
 		else if (how == 3) {
-			for (auto& m : exp) if (!m.data.empty() && mix64(plan.seed, fnv1a(reinterpret_cast<const uint8_t*>(m.name.data()), m.name.size())) % 2) { std::vector<uint8_t> decoy(m.data.size()); for (size_t k = 0; k < decoy.size(); ++k) decoy[k] = static_cast<uint8_t>(~m.data[k]); disk::put(dir + "/" + fileNameOf(m), decoy); }
+			for (auto& m : exp) if (!m.data.empty() && mix64(plan.seed, fnv1a(reinterpret_cast<const uint8_t*>(m.name.data()), m.name.size())) % 2) { std::vector<uint8_t> decoy = digestDecoy(m.data, mix64(plan.seed, m.data.size() + opIdx)); disk::put(dir + "/" + fileNameOf(m), decoy); }
 			disk::put(dir + "/_foreign.keep", prngBytes(plan.seed, 9)); foreign = 1;
 			ctx.count("probe.extractall_into_populated_directory");
 		} else if (how >= 4) {
